@@ -400,6 +400,9 @@ func (s *session) judge(of *offer, out outcome, hookBefore int, a *attemptRec) {
 			s.viol(s.acceptedSig(of, wasStored), "offer under %s was ACCEPTED although it must be rejected: %s %s, %d bytes offered, reader=%s; outcome: %s",
 				of.RefStr, of.Mut, of.Arg, len(of.Data), of.Reader, out)
 			// resynchronise the model with what is really there
+			if f.present {
+				delete(s.rejNever, of.Ref)
+			}
 			if f.present && hashMatches(of.Ref, f.data) {
 				s.stored[of.Ref] = f.data
 			} else if f.present {
